@@ -25,66 +25,96 @@ LOOP_ATTRS = {'add_callback', 'call_later', 'call_at', 'asyncio_loop', 'spawn_ca
 
 
 def check_mode_preserved(ctx, R):
+    """Stream.__init__ on its symbolic normal form (named intermediates, conditional expressions and test order are
+    transparent): the first mode written is the caller's argument; a constant mode is written only under
+    "ensure_io_loop and no loop and self.asynchronous is None" evaluated after the inheritance step; get_io_loop(self.asynchronous)
+    is bound through _set_loop exactly under "self.loop is None and self.asynchronous is not None"."""
+    from ..symexpr import SymEval
+    from .delivery import _conjuncts
     M = ctx.model
     fn = M.stream.methods['__init__']
     con = ctx.construct(fn)
-    paths = ctx.paths(fn, M.stream, no_inline=('_set_asynchronous', '_set_loop', '_inform_loop', '_inform_asynchronous'))
-    bad, n = None, 0
-    fall_bad = None
-    nfall = 0
-    for st, status in paths:
-        evs = st.events
-        sets = [i for i, e in enumerate(evs) if e.kind == 'SELFCALL' and e.a == '_set_asynchronous']
+    hooks = ('_set_asynchronous', '_set_loop', '_inform_loop', '_inform_asynchronous')
+    recs = [r for r in SymEval(M, M.stream, no_splice=hooks).run(fn) if not r.raised]
+    if not recs:
+        raise AnalysisError('Stream.__init__ has no completing path')
+
+    def selfcall(c, name):
+        return isinstance(c, ast.Call) and isinstance(c.func, ast.Attribute) and c.func.attr == name \
+            and isinstance(c.func.value, ast.Name) and c.func.value.id == 'self'
+
+    def facts(r, lo, hi):
+        """tests decided between positions lo and hi of the order, split into conjuncts known true / false"""
+        out = set()
+        for kind, k in r.order[lo:hi]:
+            if kind == 'cond':
+                for t, o in _conjuncts(*r.conds[k]):
+                    out.add((t.replace(' ', '').replace('(', '').replace(')', ''), bool(o)))
+        return out
+
+    def has(fs, *alts):
+        return any(a in fs for a in alts)
+
+    bad = fall_bad = fb = None
+    n = nfall = 0
+    for r in recs:
+        sets = [j for j, (kind, k) in enumerate(r.order) if kind == 'call' and selfcall(r.calls[k][0], '_set_asynchronous')]
         if not sets:
             raise AnalysisError('Stream.__init__ no longer calls _set_asynchronous')
         first = sets[0]
-        node0 = evs[first].x['node']
-        if not (node0.args and isinstance(node0.args[0], ast.Name) and node0.args[0].id == 'asynchronous'):
-            bad = evs
+        a0 = r.calls[r.order[first][1]][0]
+        if not (len(a0.args) == 1 and not a0.keywords and src(a0.args[0]) == 'asynchronous'):
+            bad = 'the first mode applied is %s, not the asynchronous argument' % src(a0)
             continue
-        for i in sets[1:]:
+        trace = '; '.join('%s is %s' % c for c in r.conds)
+        for j in sets[1:]:
             n += 1
-            node = evs[i].x['node']
-            const = node.args and isinstance(node.args[0], ast.Constant)
-            if const:
-                guarded = any(e.kind == 'COND' and e.b is True and e.a.replace(' ', '') == 'self.asynchronousisNone'
-                              for e in evs[first:i])
-                if not guarded:
-                    bad = evs
-        # direct constant writes of the mode field
-        for i, e in enumerate(evs):
-            if e.kind == 'ST' and e.a == 'asynchronous' and i > first:
-                guarded = any(x.kind == 'COND' and x.b is True and x.a.replace(' ', '') == 'self.asynchronousisNone' for x in evs[first:i])
-                if not guarded:
-                    bad = evs
+            c = r.calls[r.order[j][1]][0]
+            if c.args and isinstance(c.args[0], ast.Constant):
+                fs = facts(r, first, j)
+                if not has(fs, ('self.asynchronousisNone', True), ('self.asynchronousisnotNone', False)):
+                    bad = '%s under [%s]' % (src(c), trace)
+                if not has(fs, ('ensure_io_loop', True), ('notensure_io_loop', False)):
+                    fb = '%s under [%s]' % (src(c), trace)
+            elif not (c.args and src(c.args[0]) == 'asynchronous'):
+                bad = '%s under [%s]' % (src(c), trace)
+        # direct writes of the mode field
+        for j, (kind, k) in enumerate(r.order):
+            if kind == 'store' and r.stores[k][0] == 'asynchronous':
+                fs = facts(r, first, j) if j > first else set()
+                if not has(fs, ('self.asynchronousisNone', True), ('self.asynchronousisnotNone', False)):
+                    bad = 'self.asynchronous = %s under [%s]' % (src(r.stores[k][1]), trace)
         # loop fallback
-        gets = [i for i, e in enumerate(evs) if e.kind == 'CALL' and e.a == 'get_io_loop']
-        for i in gets:
+        for j, (kind, k) in enumerate(r.order):
+            if kind != 'call':
+                continue
+            c = r.calls[k][0]
+            if not (isinstance(c, ast.Call) and isinstance(c.func, ast.Name) and c.func.id == 'get_io_loop'):
+                continue
             nfall += 1
-            arg = evs[i].x['node'].args
-            okarg = len(arg) == 1 and src(arg[0]) == 'self.asynchronous'
-            cond = any(e.kind == 'COND' and e.b is True and e.a.replace(' ', '') == 'self.loopisNone' for e in evs[:i]) and \
-                any(e.kind == 'COND' and e.b is False and e.a.replace(' ', '') == 'self.asynchronousisNone' for e in evs[:i])
-            bound = any(e.kind == 'SELFCALL' and e.a == '_set_loop' and e.line == evs[i].line for e in evs[i:])
+            okarg = len(c.args) + len(c.keywords) == 1 and src((c.args + [kw.value for kw in c.keywords])[0]) == 'self.asynchronous'
+            fs = facts(r, first, j)
+            cond = has(fs, ('self.loopisNone', True), ('self.loopisnotNone', False)) and \
+                has(fs, ('self.asynchronousisNone', False), ('self.asynchronousisnotNone', True))
+            text = src(c)
+            bound = any(kind2 == 'call' and selfcall(r.calls[k2][0], '_set_loop') and len(r.calls[k2][0].args) == 1
+                        and src(r.calls[k2][0].args[0]) == text for kind2, k2 in r.order[j:])
             if not (okarg and cond and bound):
-                fall_bad = evs
+                fall_bad = '%s under [%s]%s' % (text, trace, '' if bound else ' (not bound through _set_loop)')
+        # the fallback must not be skipped: a path on which the mode is decided and no loop is known binds one
+        fs_all = facts(r, first, len(r.order))
+        if has(fs_all, ('self.loopisNone', True)) and has(fs_all, ('self.asynchronousisnotNone', True), ('self.asynchronousisNone', False)) \
+                and not any(kind == 'call' and isinstance(r.calls[k][0], ast.Call) and isinstance(r.calls[k][0].func, ast.Name)
+                            and r.calls[k][0].func.id == 'get_io_loop' for kind, k in r.order):
+            fall_bad = 'no loop is bound under [%s]' % trace
     R.ob('MODE-PRESERVED', con, 'asynchronous', bad is None,
          'an explicit asynchronous= argument can be overwritten by a constant mode (the fallback is not conditional on '
-         '"self.asynchronous is None")', ctx.where(fn, fn.node.lineno), fmt_path(bad) if bad else None, max(n, 1))
+         '"self.asynchronous is None")', ctx.where(fn, fn.node.lineno), bad, max(n, 1))
     R.ob('LOOP-FALLBACK', con, 'get_io_loop', fall_bad is None and nfall > 0,
          'the loop fallback is not `if self.loop is None and self.asynchronous is not None: self._set_loop(get_io_loop('
-         'self.asynchronous))`', ctx.where(fn, fn.node.lineno), fmt_path(fall_bad) if fall_bad else None, nfall)
-    # the ensure_io_loop fallback must be conditional on "no loop yet"
-    fb = None
-    for st, status in paths:
-        evs = st.events
-        sets = [i for i, e in enumerate(evs) if e.kind == 'SELFCALL' and e.a == '_set_asynchronous']
-        for i in sets[1:]:
-            if not any(e.kind == 'COND' and e.b is True and e.c == 'conjunct' and e.a == 'ensure_io_loop' for e in evs[:i]):
-                fb = evs
+         'self.asynchronous))`', ctx.where(fn, fn.node.lineno), fall_bad, nfall)
     R.ob('MODE-PRESERVED', con, 'ensure_io_loop', fb is None,
-         'the blocking-mode fallback is applied although ensure_io_loop was not requested', ctx.where(fn, fn.node.lineno),
-         fmt_path(fb) if fb else None)
+         'the blocking-mode fallback is applied although ensure_io_loop was not requested', ctx.where(fn, fn.node.lineno), fb)
 
 
 def _is_none_key(e, X):
